@@ -14,7 +14,7 @@ import (
 // function starts with an empty one. "Exactly once, in this order" is then a statement about trN and the arrays.
 type traceState struct{ last Term }
 
-var traceComps = []string{"X:trN", "X:trCallee", "X:trArg", "X:trRes"}
+var traceComps = []string{"X:trN", "X:trCallee", "X:trArg", "X:trRes", "X:trRes2"}
 
 func (e *Enc) traceSort(name string) string {
 	if name == "X:trN" {
@@ -86,6 +86,14 @@ func (e *Enc) traceAfter(st *State, key string, sc *SCtx) {
 	}
 	as := arrSort(SInt, SInt)
 	st.heaps["X:trRes"] = e.def("trr", Store(e.comp(st, "X:trRes", as), e.trace.last, e.asTerm(st, v)))
+	if ct.TracedRes2 != nil {
+		v2, _, err := sc.eval(ct.TracedRes2)
+		if err != nil {
+			e.unsupported = "traced result of " + key + ": " + err.Error()
+			return
+		}
+		st.heaps["X:trRes2"] = e.def("trr2", Store(e.comp(st, "X:trRes2", as), e.trace.last, e.asTerm(st, v2)))
+	}
 }
 
 func (sc *SCtx) traceCall(x SCall) (Val, types.Type, error) { return Val{}, nil, nil }
@@ -107,6 +115,23 @@ func (sc *SCtx) resolveFuncName(name string) (string, error) {
 		if _, ok := e.P.Spec.Contracts[k]; ok {
 			return k, nil
 		}
+	}
+	// a method name: unique contract key of the package ending in ").name"
+	prefix := ""
+	if sc.pkg != nil {
+		prefix = pkgShort(sc.pkg) + "."
+	}
+	found := ""
+	for k := range e.P.Spec.Contracts {
+		if strings.HasPrefix(k, prefix) && strings.HasSuffix(k, ")."+name) {
+			if found != "" && found != k {
+				return "", fmt.Errorf("ambiguous function %q in trace expression", name)
+			}
+			found = k
+		}
+	}
+	if found != "" {
+		return found, nil
 	}
 	return "", fmt.Errorf("unknown function %q in trace expression", name)
 }
@@ -131,7 +156,7 @@ func (sc *SCtx) traceBuiltin(x SCall) (Val, types.Type, bool, error) {
 			return Val{}, nil, true, err
 		}
 		return tv(Eq(Select(e.comp(sc.st, "X:trCallee", as), j.T), I(int64(funcID(key))))), types.Typ[types.Bool], true, nil
-	case "arg", "res":
+	case "arg", "res", "res2":
 		j, _, err := sc.eval(x.Args[0])
 		if err != nil {
 			return Val{}, nil, true, err
@@ -139,6 +164,8 @@ func (sc *SCtx) traceBuiltin(x SCall) (Val, types.Type, bool, error) {
 		name := "X:trArg"
 		if x.Fun == "res" {
 			name = "X:trRes"
+		} else if x.Fun == "res2" {
+			name = "X:trRes2"
 		}
 		return tv(Select(e.comp(sc.st, name, as), j.T)), nil, true, nil
 	case "childrenWalked", "knownNode":
@@ -170,6 +197,65 @@ func (sc *SCtx) traceBuiltin(x SCall) (Val, types.Type, bool, error) {
 			return Val{}, nil, true, fmt.Errorf("lockstate(): %v has no guarded_by declaration", t)
 		}
 		return tv(Select(e.comp(sc.st, "X:held", arrSort(SInt, SInt)), m)), nil, true, nil
+	case "same":
+		// bit-for-bit equality (for floats: NaN same NaN, +0 not same -0)
+		a, _, err := sc.eval(x.Args[0])
+		if err != nil {
+			return Val{}, nil, true, err
+		}
+		b, _, err := sc.eval(x.Args[1])
+		if err != nil {
+			return Val{}, nil, true, err
+		}
+		if a.T.Sort != b.T.Sort {
+			return Val{}, nil, true, fmt.Errorf("same(): sort mismatch")
+		}
+		return tv(app(SBool, "=", a.T, b.T)), types.Typ[types.Bool], true, nil
+	case "wrap64":
+		a, _, err := sc.eval(x.Args[0])
+		if err != nil {
+			return Val{}, nil, true, err
+		}
+		return tv(e.wrapMod(a.T, types.Typ[types.Int64])), types.Typ[types.Int64], true, nil
+	case "fneg":
+		a, _, err := sc.eval(x.Args[0])
+		if err != nil {
+			return Val{}, nil, true, err
+		}
+		return tv(app(SF64, "fp.neg", a.T)), types.Typ[types.Float64], true, nil
+	case "i2f", "f2i", "band", "bor", "bxor", "shl", "shr", "mulw", "concat", "tdiv", "trem", "fadd", "fsub", "fmul", "fdiv", "flt", "fle", "feq":
+		var as2 []Term
+		for _, a := range x.Args {
+			v, _, err := sc.eval(a)
+			if err != nil {
+				return Val{}, nil, true, err
+			}
+			as2 = append(as2, v.T)
+		}
+		switch x.Fun {
+		case "i2f":
+			e.decls.fun("i2f", []string{"Int"}, SF64)
+			return tv(app(SF64, "i2f", as2...)), types.Typ[types.Float64], true, nil
+		case "f2i":
+			e.decls.fun("f2i", []string{SF64}, "Int")
+			return tv(app(SInt, "f2i", as2...)), nil, true, nil
+		case "band", "bor", "bxor", "shl", "shr", "mulw":
+			e.decls.fun(x.Fun, []string{"Int", "Int"}, "Int")
+			return tv(app(SInt, x.Fun, as2...)), nil, true, nil
+		case "concat":
+			e.declStr()
+			e.decls.fun("str_concat", []string{"Int", "Int"}, "Int")
+			return tv(app(SInt, "str_concat", as2...)), types.Typ[types.String], true, nil
+		case "tdiv", "trem":
+			e.declArith()
+			return tv(app(SInt, x.Fun, as2...)), nil, true, nil
+		case "fadd", "fsub", "fmul", "fdiv":
+			op := map[string]string{"fadd": "fp.add RNE", "fsub": "fp.sub RNE", "fmul": "fp.mul RNE", "fdiv": "fp.div RNE"}[x.Fun]
+			return tv(app(SF64, op, as2...)), types.Typ[types.Float64], true, nil
+		default:
+			op := map[string]string{"flt": "fp.lt", "fle": "fp.leq", "feq": "fp.eq"}[x.Fun]
+			return tv(app(SBool, op, as2...)), types.Typ[types.Bool], true, nil
+		}
 	case "lockaddr":
 		v, t, err := sc.eval(x.Args[0])
 		if err != nil {
